@@ -90,7 +90,28 @@ func fidelityPass(tier string, seed uint64, cov map[string]any) (int, []string) 
 			cmd.Stdin = bytes.NewReader(stdin)
 			var so, se bytes.Buffer
 			cmd.Stdout, cmd.Stderr = &so, &se
+			// the kind of object behind standard output is part of the scenario
+			var outFile *os.File
+			switch c.StdoutKind {
+			case "devnull":
+				outFile, _ = os.OpenFile(os.DevNull, os.O_WRONLY, 0)
+			case "file":
+				outFile, _ = os.CreateTemp(root, "stdout-")
+			}
+			if outFile != nil {
+				cmd.Stdout = outFile
+			}
 			rerr := cmd.Run()
+			if outFile != nil {
+				if c.StdoutKind == "file" {
+					b, _ := os.ReadFile(outFile.Name())
+					so.Write(b)
+					os.Remove(outFile.Name())
+				} else {
+					so.Write(sres.Stdout) // nothing to compare: /dev/null keeps no bytes
+				}
+				outFile.Close()
+			}
 			rexit := 0
 			if ee, ok := rerr.(*exec.ExitError); ok {
 				rexit = ee.ExitCode()
